@@ -51,6 +51,9 @@ type Channel struct {
 	curPacketNr int
 	// window is the amount of buffers transmitted between ACKs
 	window int
+	// txUnterminated is true while packets of a message have been sent
+	// but none of them carried TDS_BUFSTAT_EOM yet.
+	txUnterminated bool
 
 	// queues store unconsumed Packets
 	queueRx, queueTx *PacketQueue
@@ -561,6 +564,18 @@ func (tdsChan *Channel) sendPackets(ctx context.Context, onlyFull bool) error {
 		}
 	}
 
+	if !onlyFull && tdsChan.txUnterminated {
+		// The message filled its last packet completely, so every
+		// packet was sent as soon as it was full and none carries the
+		// end of message status. Terminate the message with an empty
+		// packet - the server would wait for more data otherwise.
+		eom := NewPacket(PacketHeaderSize)
+		eom.Data = nil
+		if err := tdsChan.sendPacket(eom); err != nil {
+			return fmt.Errorf("error sending end of message packet %s: %w", eom, err)
+		}
+	}
+
 	return nil
 }
 
@@ -579,6 +594,7 @@ func (tdsChan *Channel) sendPacket(packet *Packet) error {
 		// Data portion is not exhausted, this is the last packet.
 		packet.Header.Status |= TDS_BUFSTAT_EOM
 	}
+	tdsChan.txUnterminated = packet.Header.Status&TDS_BUFSTAT_EOM != TDS_BUFSTAT_EOM
 
 	n, err := packet.WriteTo(tdsChan.tdsConn.conn)
 	if err != nil {
